@@ -267,8 +267,8 @@ func (s *Server) serve(c *conn) {
 			}
 		}
 		s.Recv++
-		if s.RealClock {
-			s.NowMs = time.Now().UnixMilli()
+		if w := time.Now().UnixMilli(); s.RealClock && w > s.NowMs {
+			s.NowMs = w // never behind the wall clock, never backwards
 		}
 		s.NowMs += s.ClockStepMs
 		if s.KeepRaw {
